@@ -45,7 +45,8 @@ _SK = [
 GEN_SPEC = {"items": [{"kind": "calls", "file": "lib/syncx/" + f, "func": fn, "as": name} for f, fn, name in _SK]}
 
 COQ_FILES = ["theories/C18/Props.v", "theories/C18/Link.v", "theories/C18/ProofsSF.v", "theories/C18/ProofsLC.v",
-             "theories/C18/ProofsAO.v", "theories/C18/ProofsPool.v", "theories/C18/ProofsRM.v", "theories/C18/ProofsTL.v"]
+             "theories/C18/ProofsAO.v", "theories/C18/ProofsPool.v", "theories/C18/ProofsRM.v", "theories/C18/ProofsTL.v",
+             "theories/C18/ProofsRef.v"]
 COQ_TARGETS = ["theories/C18/Props.v", "theories/C18/Link.v", "theories/C18/Exec.v"]
 
 QUICK_N = 330
@@ -108,12 +109,17 @@ def _gen_flight(rng, prim, tier):
                 gates.append(gate)
             key = 0 if prim == "bar" else rng.randint(1, nkeys)
             val = 100 * (t + 1) + i + 1
+            if prim in ("sf", "lc") and rng.random() < 0.18:
+                val = 0                       # the user fn panics (after its gate)
             if prim == "rm":
-                scripts[t].append(_op(0, key, gate, 1 if rng.random() < 0.15 else 0))
+                scripts[t].append(_op(0, key, gate, rng.choice([0, 0, 0, 0, 0, 1, 2])))   # 1: create fails, 2: create panics
             else:
                 scripts[t].append(_op(rng.choice([0, 0, 1]) if prim == "sf" else 0, key, gate, val))
     closed = set()
+    early_close = closer is not None and rng.random() < 0.4    # Close while creates may be in flight
     for _ in range(rng.randint(8, 30)):
+        if early_close and rng.random() < 0.08:
+            sched.append(_t(closer))
         if gates and rng.random() < 0.3:
             gt = rng.choice(gates)
             sched.append({"k": "o", "v": gt})
@@ -141,6 +147,7 @@ def _gen_atomic(rng, prim, tier):
     scripts = [[] for _ in range(g)]
     sched = []
     out, blocked, locked = 0, None, False
+    gates = []
     for _ in range(rng.randint(8, 32)):
         t = rng.randrange(g)
         sched.append(_t(t))
@@ -184,11 +191,27 @@ def _gen_atomic(rng, prim, tier):
                     locked = True
                     blocked = None
         elif prim == "ref":
-            scripts[t].append(_op(rng.choice([0, 0, 0, 1, 1])))
+            code = rng.choice([0, 0, 0, 1, 1])
+            if code == 1:
+                gate = 0
+                if rng.random() < 0.4:
+                    gate = len(gates) + 1
+                    gates.append(gate)
+                scripts[t].append(_op(1, 1 if rng.random() < 0.25 else 0, gate, 0))   # a: callback panics, b: gate in it
+            else:
+                scripts[t].append(_op(0))
+            if gates and rng.random() < 0.25:
+                sched.append({"k": "o", "v": rng.choice(gates)})
         elif prim == "once":
             scripts[t].append(_op(rng.choice([0, 0, 1])))
         else:
             scripts[t].append(_op(rng.choice([0, 1, 1, 1])))
+    if gates:
+        for gt in gates:
+            sched.append({"k": "o", "v": gt})
+        for _ in range(8):
+            for t in range(g):
+                sched.append(_t(t))
     return {"prim": prim, "n": n, "m": 0, "scripts": scripts, "sched": sched}
 
 
@@ -200,22 +223,43 @@ def _gen_pool(rng, tier):
     sched = []
     created, idle, held, blocked, now = 0, [], [[] for _ in range(g)], None, 0
     nextid = 1
+    flags = [(0, 0)] * g      # (create panics, destroy panics) of each thread's current Get
 
     def do_get(t):
         nonlocal created, nextid, blocked
+        cpan, dpan = flags[t]
         while idle:
             r, lu = idle.pop()
             if maxage > 0 and lu + maxage < now:
                 created -= 1
+                if dpan:
+                    return          # the destroy callback panics: Get is unwound, the resource is gone
                 continue
             held[t].append(r)
             return
         if created < n:
             created += 1
+            if cpan:
+                return              # the create callback panics: p.created stays incremented
             held[t].append(nextid)
             nextid += 1
             return
         blocked = t
+
+    def get_op(t, gate=0):
+        cpan = 1 if rng.random() < 0.12 else 0
+        dpan = 1 if rng.random() < 0.12 else 0
+        flags[t] = (cpan, dpan)
+        return _op(0, cpan, gate, dpan)
+
+    if rng.random() < 0.3:
+        # a create callback blocked on a gate holds p.lock: the next Get runs into the lock and proceeds
+        # only after the callback has finished
+        scripts[0].append(get_op(0, 1))
+        scripts[1].append(get_op(1))
+        sched += [_t(0), _t(1), {"k": "o", "v": 1}]
+        do_get(0)
+        do_get(1)
 
     for _ in range(rng.randint(10, 36)):
         if maxage and rng.random() < 0.3:
@@ -232,10 +276,11 @@ def _gen_pool(rng, tier):
                 continue
             code = 1
         sched.append(_t(t))
-        scripts[t].append(_op(code))
         if code == 0:
+            scripts[t].append(get_op(t))
             do_get(t)
         else:
+            scripts[t].append(_op(1))
             r = held[t].pop()
             idle.append((r, now))
             if blocked is not None:
@@ -291,7 +336,8 @@ def _gen_free(rng, prim):
     sched = []
     if prim == "pool":
         for t in range(g):
-            scripts[t] = [_op(rng.choice([0, 0, 1])) for _ in range(rng.randint(2, 8))]
+            scripts[t] = [(_op(0, 1 if rng.random() < 0.04 else 0, 0, 1 if rng.random() < 0.1 else 0) if rng.random() < 0.66 else _op(1))
+                          for _ in range(rng.randint(2, 8))]
         maxage = rng.choice([0, 1, 2, 5])
         sched = [{"k": "a", "v": rng.choice([1, 1, 2, 4])} for _ in range(rng.randint(0, 12))] if maxage else []
         return {"prim": "pool", "n": rng.randint(1, 3), "m": maxage, "scripts": scripts, "sched": sched, "free": True,
@@ -305,9 +351,10 @@ def _gen_free(rng, prim):
                 gates.append(gate)
             key = 0 if prim == "bar" else rng.randint(1, nkeys)
             if prim == "rm":
-                scripts[t].append(_op(0, key, gate, 1 if rng.random() < 0.2 else 0))
+                scripts[t].append(_op(0, key, gate, rng.choice([0, 0, 0, 1, 2])))
             else:
-                scripts[t].append(_op(rng.choice([0, 0, 1]) if prim == "sf" else 0, key, gate, 100 * (t + 1) + i + 1))
+                val = 0 if (prim in ("sf", "lc") and rng.random() < 0.2) else 100 * (t + 1) + i + 1
+                scripts[t].append(_op(rng.choice([0, 0, 1]) if prim == "sf" else 0, key, gate, val))
     rng.shuffle(gates)
     sched = [{"k": "o", "v": gt} for gt in gates]
     return {"prim": prim, "n": 0, "m": 0, "scripts": scripts, "sched": sched, "free": True, "seed": rng.randrange(1 << 30)}
@@ -344,6 +391,28 @@ def _directed():
                 "sched": [_t(0), _t(1), _t(0), {"k": "a", "v": 5}, _t(1), {"k": "a", "v": 8}, _t(0), _t(1)]})
     out.append({"prim": "ref", "n": 0, "m": 0, "scripts": [[_op(0), _op(1), _op(0), _op(1)], [_op(0), _op(1), _op(1)]],
                 "sched": [_t(0), _t(1), _t(0), _t(1), _t(0), _t(1), _t(0)]})
+    # a panicking flight: the sharer returns nil, the key is free again, the later call executes afresh
+    out.append({"prim": "sf", "n": 0, "m": 0,
+                "scripts": [[_op(0, 1, 1, 0), _op(0, 1, 0, 102)], [_op(0, 1, 0, 201), _op(1, 1, 0, 202)], [_op(1, 1, 0, 0)]],
+                "sched": [_t(0), _t(1), g1, _t(1), _t(0), _t(2), _t(1)]})
+    out.append({"prim": "lc", "n": 0, "m": 0,
+                "scripts": [[_op(0, 1, 1, 0), _op(0, 1, 0, 102)], [_op(0, 1, 0, 201)], [_op(0, 1, 0, 0)]],
+                "sched": [_t(0), _t(1), _t(2), g1, _t(0)]})
+    # Use / Clean issued while the clean callback is blocked inside Clean (it holds r.lock); a panicking callback
+    out.append({"prim": "ref", "n": 0, "m": 0,
+                "scripts": [[_op(0), _op(1, 0, 1, 0), _op(0)], [_op(0), _op(1)], [_op(1), _op(0)]],
+                "sched": [_t(0), _t(0), _t(1), _t(2), g1, _t(1), _t(2), _t(0)]})
+    out.append({"prim": "ref", "n": 0, "m": 0,
+                "scripts": [[_op(0), _op(1, 1, 1, 0), _op(0), _op(1)], [_op(0), _op(1)]],
+                "sched": [_t(0), _t(0), _t(1), g1, _t(1), _t(0), _t(0)]})
+    # create callback blocked under the pool lock while another Get arrives; panicking create / destroy callbacks
+    out.append({"prim": "pool", "n": 2, "m": 10,
+                "scripts": [[_op(0, 0, 1, 0), _op(1), _op(0, 0, 0, 1), _op(0)], [_op(0, 1, 0, 0), _op(0), _op(1)]],
+                "sched": [_t(0), _t(1), g1, _t(1), _t(0), {"k": "a", "v": 50}, _t(0), _t(0), _t(1)]})
+    # create panics inside the flight; Close while a create is in flight
+    out.append({"prim": "rm", "n": 0, "m": 0,
+                "scripts": [[_op(0, 1, 1, 2), _op(0, 1, 0, 0)], [_op(0, 1, 0, 0)], [_op(0, 2, 2, 0)], [_op(1)]],
+                "sched": [_t(0), _t(1), g1, _t(0), _t(2), _t(3), {"k": "o", "v": 2}, _t(1)]})
     out.append({"prim": "tl", "n": 1, "m": 0, "scripts": [[_op(1), _op(3), _op(3), _op(2)], [_op(0, 4000)]],
                 "sched": [_t(0), _t(1), {"k": "a", "v": 30}, _t(0), {"k": "a", "v": 3980}, _t(0), _t(0)]})
     out.append({"prim": "rm", "n": 0, "m": 0,
@@ -449,6 +518,14 @@ def bucket(case, obs):
         out.append("ref:ErrUseOfCleaned")
     if case["prim"] == "tl" and any(e[1] == 1 and e[2] == 0 and e[3] == 1 for e in h):
         out.append("tl:ErrTimeout")
+    if case["prim"] in ("sf", "lc") and any(e[1] == 1 and e[5] == 2 for e in h):
+        out.append(case["prim"] + ":fn-panicked")
+    if case["prim"] == "rm" and any(e[1] == 1 and e[2] == 0 and e[5] == 2 for e in h):
+        out.append("rm:panic")
+    if case["prim"] == "pool" and any(e[1] == 1 and e[2] == 0 and e[5] == 2 for e in h):
+        out.append("pool:callback-panicked")
+    if case["prim"] == "ref" and any(e[1] == 1 and e[2] == 1 and e[3] == 2 for e in h):
+        out.append("ref:callback-panicked")
     if any(e[0] == 1000 for e in h):
         out.append("drained")
     return out
